@@ -342,6 +342,73 @@ pub fn compaction(tier: Tier, shard: usize, n: usize) -> Report {
 		ex.explore_snap(&evs, &[], &mut inv, rep);
 		let _ = std::fs::remove_dir_all(&ex.base);
 	});
+	// a reorganisation whose fork point is exactly the horizon (the block a compaction keeps as the body tail):
+	// 21 fork blocks from x70 delivered after Chain::compact at head x90, with a restart in between or not, must be
+	// accepted, end on the fork's tip with the reference unspent set and full validation, in the same state as a
+	// node that never compacted
+	if shard == 0 {
+		crate::chainx::guarded("long+w", &mut rep, move |rep| {
+			let tree = crate::c09::universe(scr, "long+w");
+			let main = crate::c09::parse_events(&tree, &["*main"]);
+			let fork: Vec<Ev> = (71..=91).map(|h| Ev::B(tree.blocks.iter().position(|b| b.name == format!("w{}", h)).unwrap())).collect();
+			let tip = tree.blocks.iter().position(|b| b.name == "w91");
+			let mut finals: Vec<(String, Fp)> = vec![];
+			for variant in ["no-compaction", "compact", "compact+reopen"] {
+				let d = scr.fresh("hz");
+				let mut live = Live::open(&tree, &d, Options::NONE);
+				for e in &main {
+					let o = live.apply(e);
+					assert!(o.ok, "builder: main chain refused: {}", o.err);
+				}
+				let mut hist: Vec<Ev> = vec![];
+				if variant != "no-compaction" {
+					let o = live.apply(&Ev::Compact);
+					hist.push(Ev::Compact);
+					if !o.ok {
+						rep.violation("horizon-fork:compact-failed", format!("Chain::compact = {}", o.err), json!({"instance": "long+w", "variant": variant}));
+					}
+				}
+				if variant == "compact+reopen" {
+					live.apply(&Ev::Reopen);
+					hist.push(Ev::Reopen);
+				}
+				for e in &fork {
+					let o = live.apply(e);
+					hist.push(e.clone());
+					rep.evaluations += 1;
+					rep.transitions += 1;
+					if !o.ok {
+						rep.violation(
+							format!("horizon-fork:valid-fork-block-rejected:{}", variant),
+							format!("{}: {} (fork from the block exactly {} below the head, i.e. at the horizon) returned {}", variant, e.show(&tree), 20, o.err),
+							json!({"instance": "long+w", "variant": variant, "events": hist.iter().map(|e| e.show(&tree)).collect::<Vec<_>>()}),
+						);
+						break;
+					}
+				}
+				let head = live.chain().head().unwrap();
+				rep.outcome(&format!("horizon-fork:{}:head-{}", variant, tree.index_of(&head.last_block_h).map(|i| tree.blocks[i].name.clone()).unwrap_or_default()));
+				if tree.index_of(&head.last_block_h) == tip {
+					check_unspent(&live, tip, "horizon-fork:utxo", &hist, "long+w", rep);
+					if let Err(e) = live.chain().validate(false) {
+						rep.violation(format!("horizon-fork:validate:{}", variant), format!("validate(false) after the reorganisation = {:?}", e), json!({"instance": "long+w", "variant": variant}));
+					}
+					// (the body tail is what compaction moves: not part of the comparison)
+					finals.push((variant.to_string(), live.fp().only(&["head", "roots", "sizes", "utxo.", "outpos"])));
+				} else if rep.violations.is_empty() {
+					rep.violation(format!("horizon-fork:head-not-on-fork:{}", variant), format!("after all 21 fork blocks the head is at height {} td {}, not the fork tip", head.height, head.total_difficulty.to_num()), json!({"instance": "long+w", "variant": variant}));
+				}
+				drop(live);
+				let _ = std::fs::remove_dir_all(&d);
+			}
+			for (v, f) in finals.iter().skip(1) {
+				if *f != finals[0].1 {
+					rep.violation(format!("horizon-fork:differs-from-uncompacted:{}", v), format!("best-chain state after the reorganisation differs from the node that never compacted: {:?}", finals[0].1.diff(f).into_iter().take(3).collect::<Vec<_>>()), json!({"instance": "long+w", "variant": v}));
+				}
+			}
+			rep.states += finals.len() as u64;
+		});
+	}
 	rep
 }
 
